@@ -227,6 +227,38 @@ impl<T: std::io::Seek> std::io::Seek for ShortIo<T> {
     }
 }
 
+/// A `Write + Seek` sink that accepts `budget` bytes and then answers every write with an I/O error (a device that fills up).
+pub struct FailAfter {
+    pub inner: std::io::Cursor<Vec<u8>>,
+    budget: usize,
+}
+
+impl FailAfter {
+    pub fn new(budget: usize) -> Self {
+        FailAfter { inner: std::io::Cursor::new(Vec::new()), budget }
+    }
+}
+
+impl std::io::Write for FailAfter {
+    fn write(&mut self, buf: &[u8]) -> std::io::Result<usize> {
+        if self.budget == 0 && !buf.is_empty() {
+            return Err(std::io::Error::new(std::io::ErrorKind::Other, "no space left on device (injected)"));
+        }
+        let n = buf.len().min(self.budget);
+        self.budget -= n;
+        self.inner.write(&buf[..n])
+    }
+    fn flush(&mut self) -> std::io::Result<()> {
+        Ok(())
+    }
+}
+
+impl std::io::Seek for FailAfter {
+    fn seek(&mut self, pos: std::io::SeekFrom) -> std::io::Result<u64> {
+        self.inner.seek(pos)
+    }
+}
+
 pub fn fnv64(data: &[u8]) -> u64 {
     let mut h: u64 = 0xcbf2_9ce4_8422_2325;
     for b in data {
